@@ -402,7 +402,7 @@ func (r *FnRun) execSimple(fr *Frame, st *State, in ssa.Instruction) {
 		for _, b := range x.Bindings {
 			bv := r.val(fr, st, b)
 			if p, ok := bv.(PtrVal); ok && p.Kind == pkCell {
-				p.Cell.escaped = true
+				st.hv["escaped:"+p.Cell.key()] = true
 			}
 			bind = append(bind, bv)
 		}
